@@ -64,13 +64,15 @@ func cfg(nf int, dev, methods string, maxq, maxw int, atomic, hist bool, rest st
 		}
 		return "FALSE"
 	}
-	return fmt.Sprintf("CONSTANTS NF = %d\nDev = {%s}\nMethods = {%s}\nMaxQ = %d\nMaxWrites = %d\nReadAtomic = %s\nHistOn = %s\n%s\nCHECK_DEADLOCK FALSE\n",
+	return fmt.Sprintf("CONSTANTS NF = %d\nDev = {%s}\nMethods = {%s}\nMaxQ = %d\nMaxWrites = %d\nPasses = {\"p1\",\"p2\"}\nReadAtomic = %s\nHistOn = %s\n%s\nCHECK_DEADLOCK FALSE\n",
 		nf, dev, methods, maxq, maxw, b(atomic), b(hist), rest)
 }
 
 const safetyProps = `INIT Init
 NEXT Next
 INVARIANT RegValid
+INVARIANT PassesApplied
+INVARIANT GlobalsBound
 INVARIANT PerFileFromDisk
 INVARIANT QuiescentConsistent
 PROPERTY FailKeepsRegistry
@@ -108,7 +110,7 @@ func modelChecks(ctx *core.Ctx) {
 	fair := strings.Replace(safetyProps, "INIT Init\nNEXT Next", "SPECIFICATION FairSpec", 1)
 	runs := []m1run{
 		{"M1-reference(safety+liveness)", cfg(2, "", allMethods, 4, 2, false, false, fair+refOnly+liveAll), 4, "", true,
-			"reference design, per-file reads, all four write methods: (a) (b) (c), QuiescentConsistent, and liveness modulo limitation 1 (watch lost because the file was absent at re-add time)"},
+			"reference design, per-file reads, all four write methods: (a) (b) (c) (e), QuiescentConsistent, and liveness modulo limitation 1 (watch lost because the file was absent at re-add time)"},
 		{"M1-reference-atomic-read", cfg(2, "", allMethods, 4, 2, true, false, safetyProps+refOnly+"\nINVARIANT SnapshotExisted"), 2, "", false,
 			"abstraction ReadAtomic: the installed snapshot was the disk at one moment"},
 		{"M1-expected-torn-read", cfg(2, "", `"atomic"`, 4, 3, false, false, "INIT Init\nNEXT Next\nINVARIANT SnapshotExisted"), 2, "SnapshotExisted", false,
@@ -130,6 +132,8 @@ func modelChecks(ctx *core.Ctx) {
 		{"partial_reload", "PerFileFromDisk"},
 		{"watch_not_readded", "QuiescentConsistent"},
 		{"readd_after_read", "QuiescentConsistent"},
+		{"passes_skipped_on_recompile", "PassesApplied"},
+		{"globals_dropped_on_recompile", "QuiescentConsistent"},
 	}
 	for _, d := range devs {
 		runs = append(runs, m1run{"M1-deviation-" + d.dev, cfg(2, `"`+d.dev+`"`, allMethods, 4, 2, false, false, safetyProps), 2, d.prop, false, "deviation"})
@@ -193,7 +197,7 @@ func modelChecks(ctx *core.Ctx) {
 	ctx.Extra["deviations_caught"] = caught
 	// no dead action (Observe is exercised by the M2 export, counted there)
 	dead := []string{}
-	for _, a := range []string{"WIntent", "WStep", "WDone", "DropEvent", "Deliver", "ReAddOK", "ReAddFail", "ReadStep", "Fail", "Callback", "Swap", "LogOK"} {
+	for _, a := range []string{"WIntent", "WStep", "WDone", "DropEvent", "Deliver", "ReAddOK", "ReAddFail", "ReadStep", "Compile", "Fail", "Callback", "Swap", "LogOK"} {
 		if cover[a][0] == 0 {
 			dead = append(dead, a)
 		}
@@ -223,10 +227,14 @@ func schedKey(ws []Write) string {
 	return sb.String()
 }
 
-func obsKey(obs [][]string) string {
+// obsKey: per quiescence the rendered versions and "passes|global"
+func obsKey(obs [][]string, obsx []string) string {
 	parts := make([]string, len(obs))
 	for i, o := range obs {
 		parts[i] = strings.Join(o, ",")
+		if i < len(obsx) {
+			parts[i] += "/" + obsx[i]
+		}
 	}
 	return strings.Join(parts, ";")
 }
@@ -260,6 +268,8 @@ func exportSchedules(ctx *core.Ctx, length int) (map[string]*modelSched, error) 
 				V   string   `json:"v"`
 				M   string   `json:"m"`
 				Obs []string `json:"obs"`
+				P   []string `json:"p"`
+				G   string   `json:"g"`
 			} `json:"h"`
 		}
 		if err := json.Unmarshal([]byte(p), &doc); err != nil {
@@ -267,9 +277,12 @@ func exportSchedules(ctx *core.Ctx, length int) (map[string]*modelSched, error) 
 		}
 		var ws []Write
 		var obs [][]string
+		var obsx []string
 		for _, e := range doc.H {
 			ws = append(ws, Write{e.F, e.V, e.M})
 			obs = append(obs, e.Obs)
+			sort.Strings(e.P)
+			obsx = append(obsx, strings.Join(e.P, "+")+"|"+e.G)
 		}
 		k := schedKey(ws)
 		ms := out[k]
@@ -277,7 +290,7 @@ func exportSchedules(ctx *core.Ctx, length int) (map[string]*modelSched, error) 
 			ms = &modelSched{Key: k, Writes: ws, Allowed: map[string]struct{}{}}
 			out[k] = ms
 		}
-		ms.Allowed[obsKey(obs)] = struct{}{}
+		ms.Allowed[obsKey(obs, obsx)] = struct{}{}
 	}
 	if len(out) == 0 {
 		return nil, fmt.Errorf("TLC exported no schedule")
@@ -384,7 +397,7 @@ func traceCfg(nf int, diag bool) string {
 	if diag {
 		d = "TRUE"
 	}
-	return fmt.Sprintf("CONSTANTS NF = %d\nDev = {}\nMethods = {%s}\nMaxQ = 12\nMaxWrites = 1000\nReadAtomic = FALSE\nHistOn = FALSE\nDiag = %s\nINIT TInit\nNEXT TNext\nCHECK_DEADLOCK FALSE\n", nf, allMethods, d)
+	return fmt.Sprintf("CONSTANTS NF = %d\nDev = {}\nMethods = {%s}\nMaxQ = 12\nMaxWrites = 1000\nPasses = {\"p1\",\"p2\"}\nReadAtomic = FALSE\nHistOn = FALSE\nDiag = %s\nINIT TInit\nNEXT TNext\nCHECK_DEADLOCK FALSE\n", nf, allMethods, d)
 }
 
 var reAccept = regexp.MustCompile(`^<<"ACCEPT", (\d+), (\d+)>>`)
@@ -522,13 +535,57 @@ func signature(it *item) (sig core.Sig, what string, drift bool) {
 	}
 	w := res.Sched[widx]
 	hist := fileHistory(res.Sched, widx, w.F)
-	if hist == "moved-away" {
+	// the raw log lines of this write so far (and of the rejected event itself)
+	nlog := 0
+	for i := 0; i <= pos && i < len(tr); i++ {
+		if tr[i]["ev"] == "log" {
+			nlog++
+		}
+	}
+	for i, k := pos, nlog; i >= 0 && k > 0 && k <= len(res.Logs); i-- {
+		if tr[i]["ev"] == "wbegin" {
+			break
+		}
+		if tr[i]["ev"] == "log" {
+			if txt := res.Logs[k-1]; strings.Contains(txt, "global ") && strings.Contains(txt, "is undefined") {
+				return core.Sig{Family: "watch-globals", Feature: "not-bound-on-recompile"},
+					fmt.Sprintf("a recompile during write %d (%+v) failed with %q although the bundle defines that global: the recompiler's fresh bundle does not carry the globals over", widx+1, w, txt), false
+			}
+			k--
+		}
+	}
+	if kind == "quiesce" || kind == "callback" {
+		full := strings.Join(PassTags, "+") + "|" + GlobalValue
+		got := fmt.Sprint(e["g"])
+		var ps []string
+		if xs, ok := e["p"].([]interface{}); ok {
+			for _, x := range xs {
+				ps = append(ps, fmt.Sprint(x))
+			}
+		}
+		got = strings.Join(ps, "+") + "|" + got
+		where := "the registry in use at quiescence"
+		if kind == "callback" {
+			where = "the registry handed to the recompilation callback"
+		}
+		if got != full && got != "|none" {
+			if strings.Join(ps, "+") != strings.Join(PassTags, "+") {
+				return core.Sig{Family: "watch-parse-passes", Feature: "not-applied-on-recompile"},
+					fmt.Sprintf("%s (write %d, %+v) shows the parse-pass tags %v, registered are %v: a recompile did not run the passes registered with AddParsePass", where, widx+1, w, ps, PassTags), false
+			}
+			return core.Sig{Family: "watch-globals", Feature: "not-bound-on-recompile"},
+				fmt.Sprintf("%s (write %d, %+v) prints the global as %v, the bundle defines %q", where, widx+1, w, e["g"], GlobalValue), false
+		}
+	}
+	if hist == "moved-away" && (kind == "quiesce" || kind == "log") && !strings.Contains(fmt.Sprint(e["r"]), "none") {
 		// One cause, one signature: after a Rename event the watch the
 		// recompiler adds back is dead with the pinned fsnotify 1.4.9 (events of
 		// the new file carry an empty name; Write/Chmod are dropped, Remove/
-		// Rename make the recompiler watch "."). Every symptom on a file that
-		// was moved away earlier (write not noticed, fewer recompiles than
-		// events, a missing "no such file" line of watcher.Add) is this.
+		// Rename make the recompiler watch "."). That was the tree before
+		// d30e761; the symptoms on a file that was moved away earlier (write not
+		// noticed, stale registry, fewer recompiles than events, a missing "no
+		// such file" line of watcher.Add) are folded into this one signature.
+		// Callback-order and missing-template symptoms are not.
 		return core.Sig{Family: "watch-after-rename-away", Feature: "re-added-watch-dead"},
 			fmt.Sprintf("file f%d was renamed to a backup name and re-created earlier in the run; write %d (%+v) to it is then not handled as bundle.go intends (first event the model cannot produce: %v at trace position %d): the watch added back after the Rename event does not deliver usable events", w.F, widx+1, w, e, pos), false
 	}
@@ -627,7 +684,7 @@ func judge(ctx *core.Ctx, items []*item, label string, diagnose bool) error {
 		}
 		it.m2bad, it.m3bad = false, false
 		if it.model != nil {
-			if _, ok := it.model.Allowed[obsKey(it.res.Obs)]; !ok {
+			if _, ok := it.model.Allowed[obsKey(it.res.Obs, it.res.ObsX)]; !ok {
 				it.m2bad = true
 			}
 		}
@@ -649,6 +706,7 @@ func Run(ctx *core.Ctx) {
 		"a schedule is non-trivial if it has at least one write; distinct = distinct (files, schedule)"
 	ctx.Assumptions = []string{
 		"fsnotify/inotify are the environment: an in-place modification of a watched inode queues 1 Write event per system call (possibly coalesced with an identical unread one), unlink/rename-over queues Chmod+Remove and ends the watch, rename-away queues Rename; Write/Chmod events for a path that does not exist are dropped by fsnotify",
+		"every template prints one global and two parse passes append a tag to every template: passes applied / globals bound are read off the rendered output",
 		"file contents are abstracted to v1|v2|bad|empty|absent; an empty .soy file does not compile (measured: 'namespace required')",
 		"renders are made only at quiescence: the unsynchronised struct copy `*reg = *registry` is accepted by the code's own comment and is not judged",
 		"the inotify queue never overflows; watcher.Errors is never signalled",
